@@ -7,6 +7,7 @@ import (
 	"math/big"
 	"sort"
 	"strings"
+	"sync"
 	"testing"
 
 	"github.com/MixinNetwork/mixin/common"
@@ -87,7 +88,7 @@ func TestVerif_C15(t *testing.T) {
 	}
 	defer sim.Close()
 	d := newVerifSDriver(sim, rng)
-	steps := r.N(150, 4000)
+	steps := r.N(150, 2000)
 	maxBatch := r.N(24, 255)
 	var finalizedPool []*common.VersionedTransaction
 	otherTopoTs := map[crypto.Hash]uint64{}
@@ -475,6 +476,85 @@ func TestVerif_C15(t *testing.T) {
 				}
 				if _, ok := after["UNIQUE"+string(h[:])+string(chain[:])]; !ok {
 					r.Violation("C15|overlap|uniqueness-record-missing", "a written snapshot of another chain left no per-node uniqueness record for one of its transactions", map[string]any{"batch": len(again)})
+				}
+			}
+		}
+	}
+	// a snapshot too large for one database transaction (six transfers with 256 outputs of 250 keys each, more than 9.6 MB of output records): whatever the
+	// store answers, all or nothing
+	{
+		var owners []common.Address
+		for i := 0; i < 250; i++ {
+			owners = append(owners, verifgen.Addr(fmt.Sprintf("c15-wide-owner-%d", i)))
+		}
+		var wide []*common.VersionedTransaction
+		for i := 0; i < 6; i++ {
+			a := d.assets[1]
+			fs := verifgen.OutSpec{Type: common.OutputTypeScript, Owners: owners[:1], Threshold: 1, Amount: verifgen.UnitsU(256), Seed: verifgen.Seed64(fmt.Sprint("c15-wide-fund", r.Seed, i))}
+			dep := verifgen.Deposit(d.w.Custodian, a.Id, a.Chain, a.Key, fmt.Sprintf("0xc15wide-%d-%d", r.Seed, i), 0, fs.Amount, fs)
+			ts := sim.NextTime(3)
+			if sim.Admit(dep, ts) != nil {
+				break
+			}
+			if _, _, err := sim.Finalize([]*common.VersionedTransaction{dep}, ts); err != nil {
+				break
+			}
+			funding := verifgen.OutsOf(dep, []verifgen.OutSpec{fs})
+			parts := make([]*common.Transaction, 16)
+			var wg sync.WaitGroup
+			for p := range parts {
+				wg.Add(1)
+				go func(p int) {
+					defer wg.Done()
+					var sp []verifgen.OutSpec
+					for k := p * 16; k < (p+1)*16; k++ {
+						sp = append(sp, verifgen.OutSpec{Type: common.OutputTypeScript, Owners: owners, Threshold: 1, Amount: verifgen.UnitsU(1), Seed: verifgen.Seed64(fmt.Sprint("c15-wide", r.Seed, i, k))})
+					}
+					parts[p] = verifgen.BuildTx(a.Id, nil, sp, nil, nil)
+				}(p)
+			}
+			wg.Wait()
+			raw := verifgen.BuildTx(a.Id, funding, nil, nil, nil)
+			for _, part := range parts {
+				raw.Outputs = append(raw.Outputs, part.Outputs...)
+			}
+			tx := verifgen.SignMap(raw, funding, [][]int{{0}})
+			if err := sim.Admit(tx, sim.NextTime(3)); err != nil {
+				r.Count("wide_transfer_not_admitted", 1)
+				break
+			}
+			wide = append(wide, tx)
+		}
+		if len(wide) == 6 {
+			before := sim.Store.VerifDump()
+			snap, panicked, err := sim.Finalize(wide, sim.NextTime(3))
+			r.Eval()
+			after := sim.Store.VerifDump()
+			if err != nil {
+				r.Count("oversized_snapshot_refused", 1)
+				r.Nontrivial(fmt.Sprintf("oversized|refused|%v", panicked))
+				if vC15Digest(before) != vC15Digest(after) {
+					deleted, changed, added := vC15Diff(before, after)
+					r.Violation("C15|failed-write-changed-the-store|oversized-snapshot", fmt.Sprintf("a snapshot write that failed (%v) left %d new, %d changed and %d deleted records behind", err, added, len(changed), len(deleted)),
+						map[string]any{"error": err.Error(), "added": added, "changed": len(changed), "deleted": len(deleted)})
+				}
+			} else {
+				r.Count("oversized_snapshot_written", 1)
+				r.Nontrivial("oversized|written")
+				missing := 0
+				for _, tx := range wide {
+					h := tx.PayloadHash()
+					if _, fin, _ := sim.Store.ReadTransaction(h); fin != snap.Hash.String() {
+						missing++
+					}
+					for i := range tx.Outputs {
+						if u, _ := sim.Store.ReadUTXOLock(h, uint(i)); u == nil {
+							missing++
+						}
+					}
+				}
+				if missing > 0 {
+					r.Violation("C15|partial-success|oversized-snapshot", fmt.Sprintf("a snapshot write returned success but %d of its effects (finalization records, outputs) are missing", missing), map[string]any{"missing": missing})
 				}
 			}
 		}
